@@ -24,9 +24,14 @@ func canon(t table) string {
 		if len(j.Streams) == 0 {
 			continue // jobs without offsets are not persisted
 		}
-		var ss []string
+		// a stream named twice in one job is one stream: the later offset wins (what SliceMap.Set does)
+		last := map[string]int64{}
 		for _, s := range j.Streams {
-			ss = append(ss, fmt.Sprintf("%q=%d", s.Name, s.Offset))
+			last[s.Name] = s.Offset
+		}
+		var ss []string
+		for n, off := range last {
+			ss = append(ss, fmt.Sprintf("%q=%d", n, off))
 		}
 		sort.Strings(ss)
 		js = append(js, fmt.Sprintf("%d|%q|%s", j.SourceID, j.Filename, strings.Join(ss, ",")))
